@@ -22,6 +22,14 @@ func verifC11Reset() (*bytes.Buffer, *Line) {
 // kind: "" accepted, "parse" = *ParseError, "rest" = the tokenizer left a rest,
 // "panic" = a panic.  diag = what was logged while parsing.
 func VerifParseShell(program string) (accepted bool, kind string, errText string, diag string) {
+	accepted, kind, errText, diag, _ = VerifParseShell2(program)
+	return
+}
+
+// VerifParseShell2 also returns the number of tokens not yet consumed when the
+// parser gave up (len(ParseError.RemainingTokens); the first of them is the
+// token Lex had returned last).
+func VerifParseShell2(program string) (accepted bool, kind string, errText string, diag string, remaining int) {
 	out, line := verifC11Reset()
 	p := VerifPanic(func() {
 		list, err := parseShellProgram(line, program)
@@ -36,14 +44,15 @@ func VerifParseShell(program string) (accepted bool, kind string, errText string
 		var pe *ParseError
 		if errors.As(err, &pe) {
 			kind = "parse"
+			remaining = len(pe.RemainingTokens)
 		} else {
 			kind = "rest"
 		}
 	})
 	if p != "" {
-		return false, "panic", p, out.String()
+		return false, "panic", p, out.String(), 0
 	}
-	return accepted, kind, errText, out.String()
+	return accepted, kind, errText, out.String(), remaining
 }
 
 // verifWordKind classifies a token text the way ShellLexer.Lex looks at it
